@@ -17,6 +17,10 @@
 
 #include "oomd/util/Util.h"
 
+#include <cstdint>
+
+#include <cmath>
+
 #include <unistd.h>
 
 #include <algorithm>
@@ -122,6 +126,12 @@ int Util::parseSize(const std::string& input, int64_t* output) {
       default:
         return -1;
     }
+    // the total has to fit the int64_t it is returned in
+    constexpr double kMaxSize = 9223372036854775807.0;
+    if (!std::isfinite(v) || v > kMaxSize ||
+        static_cast<double>(size) + v > kMaxSize) {
+      return -1;
+    }
     size += v;
     pos = unit_pos + 1;
   }
@@ -135,8 +145,10 @@ int Util::parseSizeOrPercent(
     int64_t total) {
   try {
     if (input.size() > 0 && input.at(input.size() - 1) == '%') {
-      int64_t pct = std::stoi(input.substr(0, input.size() - 1));
-      if (pct < 0 || pct > 100) {
+      size_t pct_end;
+      auto pct_str = input.substr(0, input.size() - 1);
+      int64_t pct = std::stoi(pct_str, &pct_end);
+      if (pct_end != pct_str.length() || pct < 0 || pct > 100) {
         return -1;
       }
 
@@ -149,6 +161,10 @@ int Util::parseSizeOrPercent(
       // compat - a bare number is interpreted as megabytes
       v = std::stoll(input, &end_pos);
       if (end_pos == input.length()) {
+        // megabytes have to fit after conversion to bytes
+        if (v < 0 || v > (INT64_MAX >> 20)) {
+          return -1;
+        }
         *output = v << 20;
         return 0;
       }
